@@ -719,9 +719,9 @@ theorem renderNode_strip (E : Env) {go' go : Go} (hg : GoStrip go' go) (tpl : By
       | none => rfl
       | some ns =>
         simp only [Option.map_some]
-        have := hg (.root name) { a.2 with ctx := { freshCtx a.2.ctx.vars (E.F.propExtends && a.2.ctx.sandboxed) a.2.ctx.inside with blockDefs := a.2.ctx.blockDefs } }
+        have := hg (.root name) { a.2 with ctx := { freshCtx a.2.ctx.vars (E.F.propExtends && a.2.ctx.sandboxed) a.2.ctx.inside with blockDefs := a.2.ctx.blockDefs, parents := a.2.ctx.parents } }
         simp only [stripT] at this
-        show (go' (.root name) (stripS { a.2 with ctx := { freshCtx a.2.ctx.vars (E.F.propExtends && a.2.ctx.sandboxed) a.2.ctx.inside with blockDefs := a.2.ctx.blockDefs } }) >>= _) = _
+        show (go' (.root name) (stripS { a.2 with ctx := { freshCtx a.2.ctx.vars (E.F.propExtends && a.2.ctx.sandboxed) a.2.ctx.inside with blockDefs := a.2.ctx.blockDefs, parents := a.2.ctx.parents } }) >>= _) = _
         rw [this, mapSt_bind, bind_mapSt]
         apply bind_congr_ok
         intro x _
